@@ -272,7 +272,12 @@ func c16R2(c *Ctx) {
 	eachInstr(g, func(in ssa.Instruction) {
 		if u, ok := in.(*ssa.UnOp); ok && u.Op == token.MUL && load == nil {
 			if ia, ok := u.X.(*ssa.IndexAddr); ok {
-				if _, isPhi := ia.Index.(*ssa.Phi); isPhi {
+				// the loop index: `for i := 0; …; i++` (a phi) or `for _, c := range buf` (the phi plus one)
+				idx := ia.Index
+				if b, isB := idx.(*ssa.BinOp); isB && b.Op == token.ADD && isConstIntV(1)(b.Y) {
+					idx = b.X
+				}
+				if _, isPhi := idx.(*ssa.Phi); isPhi {
 					load = u
 				}
 			}
